@@ -395,6 +395,17 @@ func (c *Ctx) decideLoop(l *mapLoop) loopVerdict {
 						keyed = true
 					}
 				}
+				// a module helper whose storage writes are all keyed by one of its parameters (e.g.
+				// putChangedStates(batch, account)): keyed when that argument is the entry's own data
+				if !keyed {
+					if g := core.StaticCallee(call); g != nil && len(g.Blocks) > 0 && c.P.InModule(g) {
+						for _, pi := range helperKeyParams(g) {
+							if pi < len(call.Common().Args) && l.dependsOnIter(call.Common().Args[pi]) {
+								keyed = true
+							}
+						}
+					}
+				}
 			}
 			if keyed {
 				reasons = append(reasons, e.desc+": storage key derived from the range key")
@@ -1000,4 +1011,55 @@ func storageKeyArgs(call ssa.CallInstruction) []ssa.Value {
 		return nil
 	}
 	return args[:n]
+}
+
+// helperKeyParams: parameter indices p of g such that every storage write primitive executed by g (its closures
+// included) selects its target (storage key / address) from p; empty when g has no such writes or some write's
+// target does not depend on a parameter.
+func helperKeyParams(g *ssa.Function) []int {
+	counts := map[int]int{}
+	n := 0
+	for _, f := range core.WithClosures(g) {
+		for _, call := range core.Calls(f) {
+			ka := storageKeyArgs(call)
+			if ka == nil {
+				continue
+			}
+			if c2, ok := call.(*ssa.Call); ok && isPureCallee(c2) {
+				continue
+			}
+			n++
+			seen := map[int]bool{}
+			for _, a := range ka {
+				core.Mentions(a, func(v ssa.Value) bool {
+					switch x := v.(type) {
+					case *ssa.Parameter:
+						for i, p := range g.Params {
+							if p == x {
+								seen[i] = true
+							}
+						}
+					case *ssa.FreeVar:
+						for i, p := range g.Params {
+							if p.Name() == x.Name() {
+								seen[i] = true
+							}
+						}
+					}
+					return false
+				})
+			}
+			for i := range seen {
+				counts[i]++
+			}
+		}
+	}
+	var out []int
+	for i, k := range counts {
+		if k == n && n > 0 {
+			out = append(out, i)
+		}
+	}
+	sort.Ints(out)
+	return out
 }
